@@ -218,6 +218,31 @@ def gen_deep_unit(rng):
             "input": (jm.dumps(rec) + "\n" + jm.dumps(rec)).encode("utf-8"), "policy": rng.choice(POLICIES)}
 
 
+def gen_selfref_unit(rng):
+    """`parse_selection` applied to text from the record is a documented use; the record decides what that text is.  Here it
+    is hostile: the text applies parse_selection to the member it came from (directly, through a second member, wrapped in a
+    pipe / default / map), or it is an honest chain of up to twenty texts each handing on to the next.  Always one nested call
+    per level (a text that calls itself twice is a resource question, 2^depth, and out of scope)."""
+    shape = rng.choice(("self", "self", "mutual", "wrapped", "chain", "list"))
+    if shape == "self":
+        rec, e = {"e": "(parse_selection .e)"}, "(parse_selection .e)"
+    elif shape == "mutual":
+        rec, e = {"a": "(parse_selection .b)", "b": "(| . (parse_selection .a))", "n": 1}, rng.choice(("(parse_selection .a)", "(parse_selection .b)"))
+    elif shape == "wrapped":
+        w = rng.choice(("(default (parse_selection .e) 1)", "(| . (parse_selection .e))", "(first (map [1] (parse_selection ^.e)))",
+                        "(set \"x\" 1 (parse_selection .e))", "(concat \"\" (parse_selection .e))", "(? true (parse_selection .e) 2)"))
+        rec, e = {"e": w}, rng.choice(("(parse_selection .e)", w))
+    elif shape == "list":
+        rec, e = {"texts": ["(+ 1 2)", "(map ^.texts (parse_selection .))", ".nosuch"]}, "(map .texts (parse_selection .))"
+    else:
+        n = rng.choice((2, 5, 12, 20))
+        rec = {"e%d" % i: "(parse_selection .e%d)" % (i + 1) for i in range(n)}
+        rec["e%d" % n] = "(+ 40 2)"
+        e = "(parse_selection .e0)"
+    return {"kind": "expr", "pos": rng.choice(("select", "filter", "sort", "group", "set-macro")), "exprs": [e], "funcs": ["selfref:" + shape], "selfref": True,
+            "input": (jm.dumps(rec) + "\n" + jm.dumps({"e": ".n", "n": 5})).encode("utf-8"), "policy": rng.choice(POLICIES)}
+
+
 def gen_sortlist_unit(rng):
     """Every sorting function over long lists (> 20 elements: the standard library's sort changes algorithm there and checks
     its comparator) of numbers that are hard to order: neighbours of 2^64 and 2^63, results of overflowed arithmetic (inf, NaN
@@ -365,7 +390,7 @@ def worker(ctx):
                 st.count("stopped_by_deadline")
                 break
             r = ctx.rng.random()
-            unit = gen_bytes_unit(ctx.rng) if r < 0.3 else gen_matrix_unit(ctx.rng) if r < 0.42 else gen_exec_unit(ctx.rng) if r < 0.425 else gen_deep_unit(ctx.rng) if r < 0.435 else gen_sortlist_unit(ctx.rng) if r < 0.45 else gen_arity_unit(ctx.rng) if r < 0.50 else gen_expr_unit(ctx.rng)
+            unit = gen_bytes_unit(ctx.rng) if r < 0.3 else gen_matrix_unit(ctx.rng) if r < 0.42 else gen_exec_unit(ctx.rng) if r < 0.425 else gen_deep_unit(ctx.rng) if r < 0.435 else gen_selfref_unit(ctx.rng) if r < 0.44 else gen_sortlist_unit(ctx.rng) if r < 0.45 else gen_arity_unit(ctx.rng) if r < 0.50 else gen_expr_unit(ctx.rng)
             if unit["kind"] == "expr" and ctx.debug_drv is not None and ctx.rng.random() < 0.35:
                 unit["debug"] = True
             run_unit(ctx, unit)
